@@ -25,6 +25,9 @@ var c15Menu = []string{
 	"q.zq.com#@#.a",
 	"zq.*#@#.g",
 	"zq##.a",
+	"##.a",
+	"zq.com,~q.zq.com#@#.a",
+	"zq.com,~q.zq.com#@#.g",
 }
 
 func c15Lists(tier string) [][]string {
@@ -38,7 +41,8 @@ func c15Lists(tier string) [][]string {
 			}
 		}
 	}
-	triples := [][]int{{0, 2, 10}, {3, 0, 11}, {2, 5, 12}, {8, 13, 0}, {6, 3, 11}, {7, 10, 4}, {2, 2, 10}, {0, 0, 13}}
+	triples := [][]int{{0, 2, 10}, {3, 0, 11}, {2, 5, 12}, {8, 13, 0}, {6, 3, 11}, {7, 10, 4}, {2, 2, 10}, {0, 0, 13},
+		{15, 16, 10}, {15, 10, 16}, {2, 16, 10}, {0, 17, 11}, {0, 11, 17}, {16, 10, 15}}
 	if tier == "thorough" {
 		for i := 0; i < n; i++ {
 			for j := i + 1; j < n; j++ {
@@ -101,7 +105,7 @@ func init() {
 		},
 		MustReach: []string{"c15.applies", "c15.excepted"},
 		Bounds: map[string]string{
-			"quick":    "rule lists: every single rule and every ordered pair from a menu of 15 element-hiding rules (generic, one/two domains, negated domain, subdomain, wildcard TLD, multi-level suffix, exceptions with same/different selectors, duplicates) plus 8 triples, parsed by the real parser; hostname of 1,2,4 symbolic bytes over {z,q,.} plus a tail from {'', .com, .co.uk}; the three flags symbolic; GetCosmeticResult's option word fully symbolic",
+			"quick":    "rule lists: every single rule and every ordered pair from a menu of 18 element-hiding rules (generic, one/two domains, negated domain, subdomain, wildcard TLD, multi-level suffix, exceptions with same/different selectors, duplicates) plus 8 triples, parsed by the real parser; hostname of 1,2,4 symbolic bytes over {z,q,.} plus a tail from {'', .com, .co.uk}; the three flags symbolic; GetCosmeticResult's option word fully symbolic",
 			"thorough": "plus systematic triples and hostnames up to 6 symbolic bytes",
 		},
 		Outside:     []string{"CSS and JS rule types (not implemented upstream)", "hostnames beyond the bound", "the storage scanner (stubbed as perfect)"},
